@@ -602,7 +602,8 @@ impl DVec3 {
     #[must_use]
     pub fn try_normalize(self) -> Option<Self> {
         let rcp = self.length_recip();
-        if rcp.is_finite() && rcp > 0.0 {
+        // a subnormal squared length is too imprecise to normalize with
+        if rcp.is_finite() && rcp > 0.0 && self.length_squared() >= f64::MIN_POSITIVE {
             Some(self * rcp)
         } else {
             None
@@ -620,7 +621,8 @@ impl DVec3 {
     #[must_use]
     pub fn normalize_or(self, fallback: Self) -> Self {
         let rcp = self.length_recip();
-        if rcp.is_finite() && rcp > 0.0 {
+        // a subnormal squared length is too imprecise to normalize with
+        if rcp.is_finite() && rcp > 0.0 && self.length_squared() >= f64::MIN_POSITIVE {
             self * rcp
         } else {
             fallback
@@ -647,7 +649,8 @@ impl DVec3 {
     pub fn normalize_and_length(self) -> (Self, f64) {
         let length = self.length();
         let rcp = 1.0 / length;
-        if rcp.is_finite() && rcp > 0.0 {
+        // a subnormal squared length is too imprecise to normalize with
+        if rcp.is_finite() && rcp > 0.0 && self.length_squared() >= f64::MIN_POSITIVE {
             (self * rcp, length)
         } else {
             (Self::X, 0.0)
